@@ -36,6 +36,10 @@ CLAIMED = {
     text="Every queue operation of the relay client (enqueue, enqueue_from_left, takeSomeFromQueue with a loop invariant, sendDatapoint, sendHighPriorityDatapoint, scheduleSend, the protocol's sendQueued / sendDatapointsNow, checkQueue, the two queue callbacks, destinationDown with a per-item re-injection contract) is verified from source against a whole-view contract over the queue as a sequence: arrivals append (self-metrics prepend), a send writes exactly the prefix of length min(batch, |queue|) and leaves the rest, a drop happens only without room below the hard limit and is counted, the limit is never exceeded by normal items, a removed destination re-injects every item in order; no AlreadyCalledError can occur.",
     note="A-TWISTED-DEFER (Deferred/callLater semantics modelled); single reactor thread; the history statement (accepted == written ++ queue) is the induction over events of the per-operation view equations (meta-step); re-injection does not re-enter the drained queue (router no longer returns the destination); CarbonClientManager, FakeClientFactory, SSL set-up, ratio reset not under contract; A-ENGINE, A-SMT",
     tech=TECH + "; sequence-view contracts per operation, loop invariant for the batching generator"),
+  'C08': dict(
+    text="MetricBuffer.input is verified to append the value to the buffer of the aligned interval and nothing else; compute_value (both loops under invariants over a snapshot) to emit exactly once, for exactly the intervals that received data since their last emission, the uninterpreted rule function of exactly the values buffered for that interval, to delete only buffers that were already emitted (age rule, then the size trim that leaves at most MAX_AGGREGATION_INTERVALS + 2), and to release an idle series; AggregationProcessor.process to feed each matching rule's buffer exactly once with the same datapoint and to forward the unchanged datapoint exactly when FORWARD_ALL is on and no rule maps the metric to itself; get_aggregate_metric to return the uncached result whatever the cache holds (memo invariant, expiring entries included); avg / count against their definitions. The pattern-language clause is decided only by a bounded stand-in on the real build_regex.",
+    note="integer timestamps; aggregation function, regex match and template interpolation uninterpreted; the pattern clause (Python re semantics) is bounded, labelled bounded, not counted as proved; percentile only range-checked; LoopingCall scheduling, RuleManager file parsing, run_pipeline not under contract; D12 (trailing newline) found by the stand-in and fixed; A-CLOCK; A-ENGINE, A-SMT",
+    tech=TECH + "; loop invariants over a snapshot of the interval map, effect-log contracts per iteration; bounded native enumeration for the regex clause"),
   'C09': dict(
     text="Back-pressure release is verified as a safety invariant at every handler exit / atomic step. Cache side (two threads, rely/guarantee): cacheTooFull implies size >= low watermark outside the window between pop's lock release and the return of _check_available_space; store only raises the flag at >= MAX, pop is always followed by the check, the check restores the invariant under interference. Relay side: queueFull.called implies |queue| >= low watermark and queueHasSpace is armed, preserved by sendDatapoint, sendQueued, resumeProducing, the callbacks. Receivers: connectionMade pauses iff receivers are paused and registers for both events; wiring in service.py/events.py is a syntactic obligation. Two genuine defects are recorded as known findings with native witnesses (D7, D8).",
     note="liveness is reduced to 'an outstanding pause has its release condition armed'; that the writer keeps draining / timers fire is assumed; A-GIL, A-THREADS for the cache side, A-TWISTED-DEFER for the relay side; D7 (resume fired by the writer thread inside connectionMade) and D8 (destination dropped while full) are known findings, their obligations are excluded from the discharged count while the native witnesses still fail; A-ENGINE, A-SMT",
